@@ -1,6 +1,6 @@
 Require Import Extraction ExtrOcamlBasic.
 From CrabV Require Import Base.ZInf Scalar.Itv Ir.Syntax Ir.Cfg Dom.ItvEnv Dom.ItvDomain Fix.Wto Fix.Engine
-     Ana.Transformer Ana.FwdItv Ana.Checker Ana.Backward Ana.BackwardCheck Ana.BwdItv Ana.FwdBwd.
+     Fix.Thresholds Fix.WtoThresholds Ana.Transformer Ana.FwdItv Ana.FwdItvLive Ana.Checker Ana.Backward Ana.BackwardCheck Ana.BwdItv Ana.FwdBwd.
 Extraction Language OCaml.
 Set Extraction KeepSingleton.
 Extraction "../ocaml/gen/fwditv_model.ml"
@@ -8,4 +8,5 @@ Extraction "../ocaml/gen/fwditv_model.ml"
   Cfg.stmt ItvEnv.env ItvEnv.e_at ItvEnv.e_is_bot ItvEnv.e_set ItvEnv.e_top ItvDomain.d_add ItvDomain.d_entails
   ItvDomain.operand Wto.build Engine.e_pre Engine.e_post Transformer.tr_stmt Transformer.tr_block
   BwdItv.wto_build BwdItv.p_rev_graph BwdItv.bwd_run BackwardCheck.bwd_inductive_ok Backward.bwd_block Checker.check_block Checker.verdict FwdItv.mkProg FwdItv.p_graph FwdItv.fwd_run FwdItv.fwd_check
+  WtoThresholds.wto_thr FwdItvLive.dead_table FwdItvLive.fwd_run_full FwdItvLive.fwd_check_full
   FwdBwd.fb_run FwdBwd.fb_verdicts FwdBwd.fb_analyze BinNums.Z BinNums.N.
